@@ -631,3 +631,71 @@ mod tests {
         }
     }
 }
+
+/// Verification hook: the private state of the [`RawMachine`].
+#[cfg(feature = "verif-hooks")]
+#[derive(Debug, Clone, PartialEq, Eq)]
+pub struct VerifRawState {
+    pub address: usize,
+    pub instruction: u8,
+    pub pending_register_write: Option<u8>,
+    pub pending_flag_write: bool,
+    pub pending_edge_interrupt: bool,
+    pub pending_level_interrupt: bool,
+    pub pending_wait_for_memory: bool,
+    pub alu_output: (u8, bool, bool, bool),
+    pub last_bus_read: u8,
+}
+
+#[cfg(feature = "verif-hooks")]
+impl RawMachine {
+    /// Verification hook: read the private state.
+    pub fn verif_state(&self) -> VerifRawState {
+        VerifRawState {
+            address: self.microprogram_ram.get_address(),
+            instruction: self.instruction_register.get_raw(),
+            pending_register_write: self
+                .pending_register_write
+                .map(|r| usize::from(r) as u8),
+            pending_flag_write: self.pending_flag_write.is_some(),
+            pending_edge_interrupt: self.pending_edge_interrupt.is_some(),
+            pending_level_interrupt: self.pending_level_interrupt.is_some(),
+            pending_wait_for_memory: self.pending_wait_for_memory.is_some(),
+            alu_output: (
+                self.alu_output.output(),
+                self.alu_output.carry_out(),
+                self.alu_output.zero_out(),
+                self.alu_output.negative_out(),
+            ),
+            last_bus_read: self.last_bus_read,
+        }
+    }
+    /// Verification hook: overwrite the private state (and the halt state).
+    pub fn verif_force(&mut self, forced: &VerifRawState, state: State) {
+        use enum_primitive::FromPrimitive;
+        self.microprogram_ram.set_address(forced.address);
+        self.instruction_register.set_raw(forced.instruction);
+        self.pending_register_write = forced
+            .pending_register_write
+            .and_then(RegisterNumber::from_u8);
+        self.pending_flag_write = if forced.pending_flag_write {
+            Some(FlagWrite)
+        } else {
+            None
+        };
+        self.pending_edge_interrupt = if forced.pending_edge_interrupt {
+            Some(Interrupt)
+        } else {
+            None
+        };
+        self.pending_wait_for_memory = if forced.pending_wait_for_memory {
+            Some(MemoryWait)
+        } else {
+            None
+        };
+        let (o, c, z, n) = forced.alu_output;
+        self.alu_output = AluOutput::verif_new(o, c, z, n);
+        self.last_bus_read = forced.last_bus_read;
+        self.state = state;
+    }
+}
